@@ -1,6 +1,7 @@
 (* C12 (record level): k-mer CGR pairs each canonical k-mer's CGR end point with its oligo frequency. *)
-From Coq Require Import NArith ZArith List.
-From KT Require Import Gen.Generated Gen.Alphabet Gen.GeneratedFacts Model.Kmer Model.Ops Model.Rows Proof.RowsProof Proof.CgrProof.
+From Coq Require Import NArith ZArith List Reals.
+From Flocq Require Import Core IEEE754.Binary IEEE754.Bits.
+From KT Require Import Gen.Generated Gen.Alphabet Gen.GeneratedFacts Model.Kmer Model.Ops Model.Rows Proof.RowsProof Proof.CgrProof Proof.CgrExact.
 Import ListNotations.
 Open Scope N_scope.
 
@@ -36,6 +37,17 @@ Proof.
   destruct (oligo_counts_spec_eq k Hk s Hd) as [-> ->]. reflexivity.
 Qed.
 
+(* for every k the CLI accepts and every square size up to 2^20 the binary64 end point of a k-mer's walk is the
+   exact chaos-game end point (k + 21 + 1 <= 53) *)
+Theorem C12_kmer_points_are_exact :
+  forall corner Sz (kmer : list N) lf ld, (0 <= Sz < 2 ^ 21)%Z -> (length kmer <= 7)%nat ->
+  cgr_b64 corner Sz kmer = Some lf -> cgr_exact corner Sz kmer = Some ld ->
+  Forall2 (fun f d => B2R 53 1024 (fst f) = dyR (fst d) /\ B2R 53 1024 (snd f) = dyR (snd d) /\
+                      is_finite 53 1024 (fst f) = true /\ is_finite 53 1024 (snd f) = true) lf ld.
+Proof.
+  intros corner Sz kmer lf ld HS Hk. apply (cgr_b64_is_exact Sz 21); [exact HS|Lia.lia|Lia.lia].
+Qed.
+
 Example C12_example : m_ocgr 2 4 false [65; 67; 71] = s_ocgr 2 4 false [65; 67; 71].
 Proof. vm_compute. reflexivity. Qed.
 
@@ -43,3 +55,4 @@ Print Assumptions C12_corners.
 Print Assumptions C12_points_per_column.
 Print Assumptions C12_point_is_cgr_end_point.
 Print Assumptions C12_frequency_is_oligo_entry.
+Print Assumptions C12_kmer_points_are_exact.
